@@ -1318,6 +1318,11 @@ def value_under(expr, bindings, fold, env=None, fn=None):
             table = fold(e.value)
         except Exception:
             table = None
+        if not isinstance(table, dict):
+            try:
+                table = value_under(e.value, bindings, fold)
+            except Unknown:
+                table = None
         if isinstance(table, dict):
             k = value_under(e.slice, bindings, fold)
             if k in table:
@@ -1328,6 +1333,12 @@ def value_under(expr, bindings, fold, env=None, fn=None):
             table = fold(e.func.value)
         except Exception:
             table = None
+        if not isinstance(table, dict):
+            # the table is itself the result of a lookup (nested tables)
+            try:
+                table = value_under(e.func.value, bindings, fold)
+            except Unknown:
+                table = None
         if isinstance(table, dict):
             k = value_under(e.args[0], bindings, fold)
             if k in table:
@@ -1350,6 +1361,53 @@ def value_under(expr, bindings, fold, env=None, fn=None):
         return fold(e)
     except Exception:
         raise Unknown(key)
+
+
+def truth_under(test, bindings, fold, env=None, fn=None):
+    """Truth value of ``test`` under ``bindings`` (see value_under); locals are expanded through ``env``. Raises Unknown."""
+    import operator as _op
+    t = canon(expand(test, env) if env else test)
+    try:
+        return bool(eval_test(t, bindings, fold))
+    except Unknown:
+        pass
+    except Exception:
+        pass
+    if isinstance(t, ast.BoolOp):
+        unknown = False
+        for v in t.values:
+            try:
+                r = truth_under(v, bindings, fold, None, fn)
+            except Unknown:
+                unknown = True
+                continue
+            if isinstance(t.op, ast.And) and not r:
+                return False
+            if isinstance(t.op, ast.Or) and r:
+                return True
+        if unknown:
+            raise Unknown(ctext(t))
+        return isinstance(t.op, ast.And)
+    if isinstance(t, ast.UnaryOp) and isinstance(t.op, ast.Not):
+        return not truth_under(t.operand, bindings, fold, None, fn)
+    if isinstance(t, ast.Compare) and len(t.ops) == 1:
+        l = value_under(t.left, bindings, fold, None, fn)
+        r = value_under(t.comparators[0], bindings, fold, None, fn)
+        op = t.ops[0]
+        if isinstance(op, ast.Is):
+            return l is r if (l is None or r is None) else l == r
+        if isinstance(op, ast.IsNot):
+            return not (l is r if (l is None or r is None) else l == r)
+        if isinstance(op, ast.Eq):
+            return l == r
+        if isinstance(op, ast.NotEq):
+            return l != r
+        if isinstance(op, ast.In):
+            return l in r
+        if isinstance(op, ast.NotIn):
+            return l not in r
+        raise Unknown(ctext(t))
+    return bool(value_under(t, bindings, fold, None, fn))
 
 
 # ---------------------------------------------------------------------------
@@ -1521,3 +1579,69 @@ def name_calls(fn, callees):
         if hasattr(fn, attr):
             setattr(new, attr, getattr(fn, attr))
     return _set_parents(new)
+
+
+# ---------------------------------------------------------------------------
+# propositional view of a test: atoms and truth-table queries
+# ---------------------------------------------------------------------------
+
+def bool_atoms(test):
+    """Atomic conditions of a test (canonical text -> node); an atom and its negation count once (the smaller text)."""
+    out = {}
+
+    def walk(n):
+        n = canon(n)
+        if isinstance(n, ast.BoolOp):
+            for v in n.values:
+                walk(v)
+        elif isinstance(n, ast.UnaryOp) and isinstance(n.op, ast.Not):
+            walk(n.operand)
+        else:
+            t, nt = ctext(n), ctext(negate(n))
+            out.setdefault(min(t, nt), n if t <= nt else negate(n))
+    walk(test)
+    return out
+
+
+def bool_eval(test, assignment):
+    """Truth of ``test`` when the atoms (see bool_atoms) have the given truth values."""
+    n = canon(test)
+    if isinstance(n, ast.BoolOp):
+        vals = [bool_eval(v, assignment) for v in n.values]
+        return all(vals) if isinstance(n.op, ast.And) else any(vals)
+    if isinstance(n, ast.UnaryOp) and isinstance(n.op, ast.Not):
+        return not bool_eval(n.operand, assignment)
+    t, nt = ctext(n), ctext(negate(n))
+    return assignment[t] if t <= nt else not assignment[nt]
+
+
+def bool_implies(test, pred, max_atoms=12):
+    """Does ``test`` imply that at least one literal (atom or negated atom) satisfying ``pred(node)`` holds (atoms treated
+    as independent)?"""
+    import itertools
+    atoms = bool_atoms(test)
+    keys = sorted(atoms)
+    if len(keys) > max_atoms:
+        raise Unknown('too many atoms')
+    good = []
+    for k in keys:
+        if pred(atoms[k]):
+            good.append((k, True))
+        if pred(canon(negate(atoms[k]))):
+            good.append((k, False))
+    if not good:
+        return False
+    for bits in itertools.product((False, True), repeat=len(keys)):
+        a = dict(zip(keys, bits))
+        if bool_eval(test, a) and not any(a[k] == pol for k, pol in good):
+            return False
+    return True
+
+
+def bool_literals(test):
+    """Both polarities of every atom of ``test`` (nodes)."""
+    out = []
+    for n in bool_atoms(test).values():
+        out.append(n)
+        out.append(canon(negate(n)))
+    return out
